@@ -74,6 +74,7 @@ struct Net {
     trunc_p: u64,
     coalesce_p: u64,
     nat_p: u64,
+    hostile: bool,
     base_latency: u64,
     jitter: u64,
 }
@@ -110,6 +111,8 @@ struct Server {
     tcp: Vec<(StunAgent, TcpBuffer, Vec<u8>)>,
     creds: Creds,
     handled: u64,
+    udp_ledger: Ledger,
+    tcp_ledgers: Vec<Ledger>,
 }
 
 fn g<T>(prop: &str, site: &'static str, f: impl FnOnce() -> T) -> Result<T, Violation> {
@@ -119,14 +122,47 @@ fn g<T>(prop: &str, site: &'static str, f: impl FnOnce() -> T) -> Result<T, Viol
     }
 }
 
+/// What one delivery to the server produced, for the server-side ledger.
+#[derive(Default)]
+struct SrvOut {
+    /// bytes to put on the wire, if the server answers
+    resp: Option<Vec<u8>>,
+    /// 0 not parsed, 1 Drop, 2 StunResponse, 3 IncomingStun
+    reply_kind: u8,
+    /// when the answer went through the server agent's `send`: what `build()` gave before the
+    /// builder was handed over, and the transmission that came back (data, from, to, tcp), or the error
+    sent: Option<(Vec<u8>, Result<(Vec<u8>, SocketAddr, SocketAddr, bool), String>)>,
+}
+
+fn srv_send(agent: &mut StunAgent, b: MessageBuilder<'_>, to: SocketAddr, via_send: Option<std::time::Instant>, out: &mut SrvOut) {
+    match via_send {
+        // as stund.rs does for TCP: through the server agent's send()
+        Some(now) => {
+            let built = b.build();
+            match agent.send(b, to, now) {
+                Ok(t) => {
+                    let d = t.data().to_vec();
+                    out.sent = Some((built, Ok((d.clone(), t.from, t.to, t.transport == stun_types::TransportType::Tcp))));
+                    out.resp = Some(d);
+                }
+                Err(e) => out.sent = Some((built, Err(format!("{e:?}")))),
+            }
+        }
+        None => out.resp = Some(b.build()),
+    }
+}
+
 /// The server's request handling, real library code throughout (modelled on stund.rs).
-fn server_handle(agent: &mut StunAgent, data: &[u8], from: SocketAddr, creds: &Creds, via_send: Option<std::time::Instant>) -> Option<Vec<u8>> {
-    let msg = Message::from_bytes(data).ok()?;
+fn server_handle(agent: &mut StunAgent, data: &[u8], from: SocketAddr, creds: &Creds, via_send: Option<std::time::Instant>) -> SrvOut {
+    let mut out = SrvOut::default();
+    let Ok(msg) = Message::from_bytes(data) else { return out };
     match agent.handle_stun(msg, from) {
-        HandleStunReply::Drop | HandleStunReply::StunResponse(_) => None,
+        HandleStunReply::Drop => out.reply_kind = 1,
+        HandleStunReply::StunResponse(_) => out.reply_kind = 2,
         HandleStunReply::IncomingStun(msg) => {
+            out.reply_kind = 3;
             if !msg.has_class(MessageClass::Request) {
-                return None;
+                return out;
             }
             let supported = [
                 Fingerprint::TYPE,
@@ -144,28 +180,105 @@ fn server_handle(agent: &mut StunAgent, data: &[u8], from: SocketAddr, creds: &C
                 Userhash::TYPE,
             ];
             if let Some(err) = Message::check_attribute_types(&msg, &supported, &[]) {
-                return match via_send {
-                    // as stund.rs does for TCP: through the server agent's send()
-                    Some(now) => agent.send(err, from, now).ok().map(|t| t.data().to_vec()),
-                    None => Some(err.build()),
-                };
+                srv_send(agent, err, from, via_send, &mut out);
+                return out;
             }
             let mut resp = Message::builder_success(&msg);
             let xor = XorMappedAddress::new(from, msg.transaction_id());
-            resp.add_attribute(&xor).ok()?;
+            if resp.add_attribute(&xor).is_err() {
+                return out;
+            }
             let lc = creds.lib();
-            if msg.has_attribute(MessageIntegritySha256::TYPE) {
-                resp.add_message_integrity(&lc, IntegrityAlgorithm::Sha256).ok()?;
+            let sealed = if msg.has_attribute(MessageIntegritySha256::TYPE) {
+                resp.add_message_integrity(&lc, IntegrityAlgorithm::Sha256).is_ok()
             } else if msg.has_attribute(MessageIntegrity::TYPE) {
-                resp.add_message_integrity(&lc, IntegrityAlgorithm::Sha1).ok()?;
+                resp.add_message_integrity(&lc, IntegrityAlgorithm::Sha1).is_ok()
+            } else {
+                true
+            };
+            if !sealed || resp.add_fingerprint().is_err() {
+                return out;
             }
-            resp.add_fingerprint().ok()?;
-            match via_send {
-                Some(now) => agent.send(resp, from, now).ok().map(|t| t.data().to_vec()),
-                None => Some(resp.build()),
-            }
+            srv_send(agent, resp, from, via_send, &mut out);
         }
     }
+    out
+}
+
+/// Server-side ledger (the agent in the *responder* role, which the client-side transaction model
+/// never sees): one per server agent.
+///  * C15: the set of validated peers equals the set of source addresses whose delivery was answered
+///    `IncomingStun` / `StunResponse` — asked after every delivery for every address the server has
+///    seen traffic from (accepted, refused by the parser, or dropped), every client's address as the
+///    server sees it, the attacker's and the server's own;
+///  * C18: an answer handed to the server agent's `send` comes back as exactly one transmission with
+///    the bytes `build()` gave, from the server's address to the requester, over the agent's
+///    transport, and leaves no request transaction behind;
+///  * C05: an agent that never sent a request has nothing outstanding — `poll` reports no event.
+#[derive(Default)]
+struct Ledger {
+    valid: std::collections::BTreeSet<SocketAddr>,
+    seen: std::collections::BTreeSet<SocketAddr>,
+}
+
+fn server_judge(ctx: &mut Ctx, agent: &mut StunAgent, lg: &mut Ledger, local: SocketAddr, tcp: bool, data: &[u8], from: SocketAddr, out: &SrvOut, at: u64) -> ScResult {
+    lg.seen.insert(from);
+    if out.reply_kind >= 2 {
+        lg.valid.insert(from);
+    }
+    let addrs: Vec<SocketAddr> = lg.seen.iter().copied().collect();
+    for a in addrs {
+        let got = g("C15", "server: is_validated_peer", || agent.is_validated_peer(a))?;
+        let want = lg.valid.contains(&a);
+        if got != want {
+            let v = Violation::new("C15", if want { "stays_validated" } else { "validated_only_by_accepted_message" }, "world_server", format!("server agent: is_validated_peer({a}) = {got} after a delivery from {from} that was {}; expected {want}", ["refused by the parser", "answered Drop", "answered StunResponse", "answered IncomingStun"][out.reply_kind as usize]));
+            ev!(ctx, "  !! {}", v.message);
+            return Err(v);
+        }
+    }
+    ctx.st.inc("op.server_ledger_check");
+    if let Some((built, sent)) = &out.sent {
+        match sent {
+            Err(e) => {
+                let v = Violation::new("C18", "nonrequest_sent", "world_server", format!("server agent: send of a response was refused: {e}"));
+                ev!(ctx, "  !! {}", v.message);
+                return Err(v);
+            }
+            Ok((d, f, t, is_tcp)) => {
+                if d != built {
+                    let v = Violation::new("C18", "nonrequest_bytes", "world_server", format!("server agent: the response was transmitted with other bytes than its serialisation ({}B vs {}B)", d.len(), built.len()));
+                    ev!(ctx, "  !! {}", v.message);
+                    return Err(v);
+                }
+                if *f != local || *t != from || *is_tcp != tcp {
+                    let v = Violation::new("C18", "nonrequest_addressing", "world_server", format!("server agent: response transmitted {f}->{t} tcp={is_tcp}, expected {local}->{from} tcp={tcp}"));
+                    ev!(ctx, "  !! {}", v.message);
+                    return Err(v);
+                }
+            }
+        }
+        ctx.st.inc("op.server_response_through_send");
+    }
+    // the server never sent a request: nothing is outstanding, whatever arrived
+    if let Some(tid) = tid_of(data) {
+        let some = g("C05", "server: request_transaction", || agent.request_transaction(stun_types::message::TransactionId::from(tid)).is_some())?;
+        if some {
+            let v = Violation::new("C05", "outstanding_bookkeeping", "world_server", format!("server agent lists a request transaction {tid:#x} although it never sent a request"));
+            ev!(ctx, "  !! {}", v.message);
+            return Err(v);
+        }
+    }
+    if ctx.ch.rare(1, 4) {
+        let now_i = anchor() + std::time::Duration::from_nanos(at);
+        let ev_ = g("C05", "server: poll", || !matches!(agent.poll(now_i), stun_proto::agent::StunAgentPollRet::WaitUntil(_)))?;
+        if ev_ {
+            let v = Violation::new("C05", "no_event_without_transaction", "world_server", "server agent: poll reported an event although the agent never sent a request".into());
+            ev!(ctx, "  !! {}", v.message);
+            return Err(v);
+        }
+        ctx.st.inc("op.server_poll");
+    }
+    Ok(())
 }
 
 fn frame(b: &[u8]) -> Vec<u8> {
@@ -262,6 +375,7 @@ pub fn scenario(ctx: &mut Ctx) -> ScResult {
         trunc_p: if hostile_net { *ctx.ch.pick(&[2u64, 0, 10]) } else { 0 },
         coalesce_p: if hostile_net { *ctx.ch.pick(&[2u64, 0, 10]) } else { 0 },
         nat_p: *ctx.ch.pick(&[0u64, 50]),
+        hostile: hostile_net,
         base_latency: ctx.ch.range(1, 80) * MS,
         jitter: *ctx.ch.pick(&[10u64, 0, 300, 2000]) * MS,
     };
@@ -294,7 +408,7 @@ pub fn scenario(ctx: &mut Ctx) -> ScResult {
         clients.push(Client { sim, tcp, addr, mapped, rx: TcpBuffer::new(), rx_hdr: vec![], conn_cut: false, late_policy: *ctx.ch.pick(&[0u64, 0, 1, 50, 700]), stall_until: 0, header_delimited: ctx.ch.rare(1, 3), scheduled: Default::default() });
     }
     let (_local_c, peer_c, _other_c) = shared.clone().unwrap();
-    let mut server = Server { addr: server_addr, udp: new_agent(false, server_addr), tcp: (0..nclients).map(|_| (new_agent(true, server_addr), TcpBuffer::new(), vec![])).collect(), creds: peer_c.clone(), handled: 0 };
+    let mut server = Server { addr: server_addr, udp: new_agent(false, server_addr), tcp: (0..nclients).map(|_| (new_agent(true, server_addr), TcpBuffer::new(), vec![])).collect(), creds: peer_c.clone(), handled: 0, udp_ledger: Ledger::default(), tcp_ledgers: (0..nclients).map(|_| Ledger::default()).collect() };
     ev!(ctx, "world: {} client(s) [{}], server {}, faults until +{}s drop={}% dup={}% corrupt={}% latency={}ms jitter={}ms", nclients, clients.iter().map(|c| if c.tcp { "tcp" } else { "udp" }).collect::<Vec<_>>().join(","), server.addr, net.faults_until / SEC, net.drop_p, net.dup_p, net.corrupt_p, net.base_latency / MS, net.jitter / MS);
     // initial configuration: remote credentials known in most runs
     for c in clients.iter_mut() {
@@ -428,7 +542,9 @@ pub fn scenario(ctx: &mut Ctx) -> ScResult {
                 server.handled += 1;
                 let creds = server.creds.clone();
                 let r = g(&ctx.cfg.prop, "server: handle_incoming_data", || server_handle(&mut server.udp, &bytes, from, &creds, None))?;
-                if let Some(resp) = r {
+                let sa0 = server.addr;
+                server_judge(ctx, &mut server.udp, &mut server.udp_ledger, sa0, false, &bytes, from, &r, at)?;
+                if let Some(resp) = r.resp {
                     ctx.st.inc("op.server_response");
                     genuine_log.push((reply_to, resp.clone()));
                     let sa = server.addr;
@@ -446,7 +562,8 @@ pub fn scenario(ctx: &mut Ctx) -> ScResult {
                     server.handled += 1;
                     let now_i = anchor() + std::time::Duration::from_nanos(at);
                     let r = g(&ctx.cfg.prop, "server: handle_incoming_data", || server_handle(agent, &f, mapped, &creds, Some(now_i)))?;
-                    if let Some(resp) = r {
+                    server_judge(ctx, agent, &mut server.tcp_ledgers[i], server.addr, true, &f, mapped, &r, at)?;
+                    if let Some(resp) = r.resp {
                         ctx.st.inc("op.server_response");
                         genuine_log.push((i, resp.clone()));
                         let cut = clients[i].conn_cut;
@@ -516,6 +633,14 @@ pub fn scenario(ctx: &mut Ctx) -> ScResult {
                 } else {
                     continue;
                 };
+                // the attacker also talks to the server: a response-class message (forged, or a replayed
+                // genuine one) that belongs to no transaction of the server's must be dropped there and
+                // must not validate the attacker's address
+                if ctx.ch.rare(1, 3) {
+                    ctx.st.inc("fault.attacker_response_to_server");
+                    let at3 = net.now + ctx.ch.below(50) * MS;
+                    net.push(at3, Ev::ToServer { bytes: bytes.clone(), from: attacker_addr, reply_to: i });
+                }
                 let from = if ctx.ch.coin() { server.addr } else { attacker_addr };
                 if c.tcp {
                     // (injecting into an established TCP stream is not modelled)
@@ -596,7 +721,14 @@ fn transmit(ctx: &mut Ctx, net: &mut Net, i: usize, c: &mut Client, bytes: &[u8]
         let fr = frame(bytes);
         tcp_send(ctx, net, &fr, c.conn_cut, |b| Ev::SegToServer { c: i, bytes: b });
     } else {
-        let from = c.mapped;
+        // NAT rebinding while faults are on: now and then a datagram leaves the NAT from another port,
+        // so the server sees addresses with little traffic — sometimes only damaged traffic — of their own
+        let from = if net.hostile && net.faults_on() && net.nat_p > 0 && ctx.ch.rare(1, 8) {
+            ctx.st.inc("fault.nat_rebinding");
+            SocketAddr::new(c.mapped.ip(), c.mapped.port().wrapping_add(1000 + ctx.ch.below(3) as u16))
+        } else {
+            c.mapped
+        };
         udp_send(ctx, net, bytes.to_vec(), |b| Ev::ToServer { bytes: b, from, reply_to: i });
     }
 }
